@@ -45,6 +45,7 @@ class Gen:
         self.binary_safe = binary_safe   # restrict to what both builds support identically (RawCBOR etc. are fine)
         self.opaque_el = []              # keys whose value is an array whose ELEMENTS are rendered by an external marshaler
         self.opaque = []                 # keys whose value is rendered by an external marshaler as a structured JSON value
+        self.field_errs = []
 
     def bytes_(self):
         r = self.r
@@ -170,43 +171,79 @@ class Gen:
         self.errobj_n = getattr(self, "errobj_n", 0) + 1       # member names unique within the program
         return {"ek": "obj", "f": [{"m": "Str", "k": b64("m%d_%d" % (self.errobj_n, i)), "v": self.tv_string()} for i in range(n)]}
 
-    def fields_value(self, kname):
-        """A typed value for a Fields entry (no errors: those are the ferr* classes)."""
+    # every case of the type switch of fields.go appendFieldList (scalars, pointers to them, slices of them, and the rest)
+    FIELD_SCALARS = ["string", "bool", "int", "int8", "int16", "int32", "int64", "uint", "uint8", "uint16", "uint32", "uint64",
+                     "float32", "float64", "time", "dur"]
+    FIELD_SLICES = ["[]" + t for t in FIELD_SCALARS if t != "uint8"]
+    FIELD_OTHER = ["[]byte", "nil", "error", "ip", "ipnet", "mac", "raw", "any", "any"]
+
+    def scalar_tv(self, t):
         r = self.r
-        c = r.randrange(12)
-        if c in (9, 10):
-            self.opaque.append(kname)
-        if c == 0:
+        if t == "string":
             return self.tv_string()
-        if c == 1:
-            typ = r.choice(list(INTS))
-            tv = self.tv_int(typ)
-            if r.random() < 0.3:
-                tv["ptr"] = True
-                tv["nil"] = r.random() < 0.4
-            return tv
-        if c == 2:
-            return self.tv_f64()
-        if c == 3:
+        if t == "bool":
+            return {"t": "bool", "b": r.random() < 0.5}
+        if t == "float32":
             return self.tv_f32()
-        if c == 4:
-            return {"t": "bool", "b": True, "ptr": r.random() < 0.3}
-        if c == 5:
+        if t == "float64":
+            return self.tv_f64()
+        if t == "time":
             return {"t": "time", "i": str(r.choice(TIMES))}
-        if c == 6:
+        if t == "dur":
             return {"t": "dur", "i": str(r.choice(DURS))}
-        if c == 7:
-            return {"t": "[]byte", "s": b64(self.bytes_())}
-        if c == 8:
+        return self.tv_int(t.capitalize())
+
+    def fields_value(self, kname):
+        """A typed value for a Fields entry: uniformly over the cases of appendFieldList's type switch
+        ([]error and error+Stack are the ferr* classes)."""
+        r = self.r
+        x = r.random()
+        if x < 0.45:
+            tv = self.scalar_tv(r.choice(self.FIELD_SCALARS))
+            if r.random() < 0.4:                      # the *T cases; a nil pointer is logged as null
+                tv["ptr"] = True
+                tv["nil"] = r.random() < 0.3
+            return tv
+        if x < 0.75:
+            t = r.choice(self.FIELD_SLICES)
+            et = t[2:]
+            n = r.choice([0, 1, 2, 2, 3])
+            self.opaque.append(kname)
+            tv = {"t": t, "nil": n == 0 and r.random() < 0.5}
+            if et == "string":
+                tv["ss"] = [b64(self.bytes_()) for _ in range(n)]
+            elif et == "bool":
+                tv["bs"] = [r.random() < 0.5 for _ in range(n)]
+            elif et in ("float32", "float64"):
+                tv["xs"] = [(self.tv_f32() if et == "float32" else self.tv_f64())["x"] for _ in range(n)]
+            elif et == "time":
+                tv["is"] = [str(r.choice(TIMES)) for _ in range(n)]
+            elif et == "dur":
+                tv["is"] = [str(r.choice(DURS)) for _ in range(n)]
+            else:
+                lo, hi = INTS[et.capitalize()]
+                tv["is"] = [str(r.choice(int_choices(lo, hi))) for _ in range(n)]
+            return tv
+        k = r.choice(self.FIELD_OTHER)
+        if k == "[]byte":
+            return {"t": "[]byte", "s": b64(self.bytes_()), "nil": r.random() < 0.1}
+        if k == "nil":
             return {"t": "nil"}
-        if c == 9:
-            typ = r.choice(["int", "int8", "uint16", "uint64", "int64"])
-            lo, hi = INTS[typ.capitalize()]
-            n = r.randrange(3)
-            return {"t": "[]" + typ, "is": [str(r.choice(int_choices(lo, hi))) for _ in range(n)], "nil": n == 0 and r.random() < 0.5}
-        if c == 10:
-            n = r.randrange(3)
-            return {"t": "[]string", "ss": [b64(self.bytes_()) for _ in range(n)], "nil": n == 0 and r.random() < 0.5}
+        if k == "error":
+            tv = dict({"t": "error", "s": b64(self.bytes_())}, **self.err_kind(kname))
+            self.field_errs.append(tv)
+            return tv
+        if k == "ip":
+            return {"t": "ip", "ip": list(r.choice([b"\x7f\x00\x00\x01", bytes(range(16)), b"\x00" * 16, b"\xc0\xa8\x00\x01"]))}
+        if k == "mac":
+            return {"t": "mac", "ip": list(r.choice([b"\x00\x14\x22\x01\x23\x45", b"\xff" * 6]))}
+        if k == "ipnet":
+            return {"t": "ipnet", "ip": [192, 168, 0, 0], "mask": [255, 255, r.choice([0, 255]), 0]}
+        if k == "raw":
+            raw = r.choice([b"1", b'"s"', b"null", b"true", b"-1.5e3", b"[1,2]", b"{}", b'[{"a":null}]', b'{"a":{"b":[]}}'])
+            if raw[:1] in (b"[", b"{"):
+                self.opaque.append(kname)
+            return {"t": "raw", "s": b64(raw)}
         v = self.any_value()
         if v["t"] in ("struct", "map", "slice"):
             self.opaque.append(kname)
@@ -317,6 +354,7 @@ class Gen:
         needs = set()
         self.opaque = []
         self.opaque_el = []
+        self.field_errs = []
         names = {"lvl": "level", "msg": "message", "ctx": [], "ev": [], "hooks": []}
         stack_on = False
         ctx_ops, ev_ops = [], []
@@ -348,6 +386,13 @@ class Gen:
                             o["m"], o["k"] = "AnErr", b64(kname)
                 names[phase].append(kname)
                 dst.extend(ops)
+        if needs:
+            # Stack() is on somewhere in the program: an error value in Fields would add a stack member the abstract
+            # program does not have (that combination is the ferrstack* classes) - log those values as strings instead
+            for tv in self.field_errs:
+                for k in ("ek", "f"):
+                    tv.pop(k, None)
+                tv["t"] = "string"
         if len(needs) > 1:
             return None
         st = dict(settings or {})
